@@ -344,6 +344,69 @@ func (s *State) assume(t *Term) {
 	s.pc = append(s.pc, t)
 }
 
+// decided reports whether the path condition contains c (1) or its negation (-1) as a conjunct (hash-consed
+// terms: pointer comparison). A cheap syntactic pruning of infeasible branches; 0 when unknown.
+func (s *State) decided(c *Term) int {
+	nc := Not(c)
+	var walk func(t *Term) int
+	walk = func(t *Term) int {
+		if t == c {
+			return 1
+		}
+		if t == nc {
+			return -1
+		}
+		if t.Op == "and" {
+			for _, a := range t.Args {
+				if r := walk(a); r != 0 {
+					return r
+				}
+			}
+		}
+		return 0
+	}
+	for _, p := range s.pc {
+		if r := walk(p); r != 0 {
+			return r
+		}
+	}
+	// x == c2 is false when the path condition has x == c1 for another constant c1
+	if c.Op == "=" && len(c.Args) == 2 {
+		x, k := c.Args[0], c.Args[1]
+		if x.IsConst() {
+			x, k = k, x
+		}
+		if k.IsConst() && !x.IsConst() {
+			var other func(t *Term) bool
+			other = func(t *Term) bool {
+				if t.Op == "=" && len(t.Args) == 2 {
+					a, b := t.Args[0], t.Args[1]
+					if a.IsConst() {
+						a, b = b, a
+					}
+					if a == x && b.IsConst() && b != k {
+						return true
+					}
+				}
+				if t.Op == "and" {
+					for _, a := range t.Args {
+						if other(a) {
+							return true
+						}
+					}
+				}
+				return false
+			}
+			for _, p := range s.pc {
+				if other(p) {
+					return -1
+				}
+			}
+		}
+	}
+	return 0
+}
+
 func (s *State) infeasible() bool {
 	for _, p := range s.pc {
 		if p == False {
